@@ -716,6 +716,10 @@ func (c *CharSet) addCategory(categoryName string, negate, caseInsensitive bool)
 // Adds to the class any case-equivalence versions of characters already
 // in the class. Used for case-insensitivity.
 func (c *CharSet) addCaseEquivalences() {
+	// the subtracted class is matched case-insensitively too
+	if c.sub != nil {
+		c.sub.addCaseEquivalences()
+	}
 	// we already have all case equiv
 	if c.anything {
 		return
